@@ -5,6 +5,8 @@ cd "$(dirname "$0")"
 mkdir -p work evidence replays
 [ -f harness/Cargo.lock ] || cp /repo/Cargo.lock harness/Cargo.lock
 (cd harness && CARGO_NET_OFFLINE=true cargo build --release --offline)
+mkdir -p work/jcls
+javac -cp /opt/veriftools/tla/tla2tools.jar:/opt/veriftools/tla/CommunityModules-deps.jar -d work/jcls spec/java/tlc2/module/BigNat.java
 for m in spec/*.tla; do
   (cd spec && tla-sany "$(basename "$m")" >/dev/null 2>&1) || { echo "SANY failed on $m"; exit 1; }
 done
